@@ -789,6 +789,27 @@ func ruleNameStore(c *Ctx, r *Rep, tier string) {
 						return fv != nil && fv.Name() == "owner"
 					})
 					if !ok || !ce.isNil || from.Succs[0] == from.Succs[1] {
+						// nor the edge on which the new name is the old one (a self-rename
+						// changes nothing in the table)
+						if iff := ifOf(from); iff != nil && from.Succs[0] != from.Succs[1] {
+							if bo, isBo := iff.Cond.(*ssa.BinOp); isBo && (bo.Op == token.EQL || bo.Op == token.NEQ) {
+								isOld := func(v ssa.Value) bool {
+									ld, ok := v.(*ssa.UnOp)
+									if !ok || ld.Op != token.MUL {
+										return false
+									}
+									of, ok := ld.X.(*ssa.FieldAddr)
+									return ok && of.Field == fa.Field && sameExpr(of.X, fa.X, 0)
+								}
+								if (bo.X == st.Val && isOld(bo.Y)) || (bo.Y == st.Val && isOld(bo.X)) {
+									same := 0
+									if bo.Op == token.NEQ {
+										same = 1
+									}
+									return to != from.Succs[same]
+								}
+							}
+						}
 						return true
 					}
 					return to != from.Succs[ce.yes] // the "owner is nil" edge is not followed
